@@ -223,7 +223,7 @@ func runScript(t *testing.T, s wscript, side, mode, errBy string, sum *summary, 
 				tr.Add(map[string]any{"ev": "start", "x": x, "g": st.G})
 				var g *gateT
 				if st.G > 0 {
-					g = &gateT{side: map[string]int64{"read": 0, "write": 1}[mode], phase: int64(st.G), hit: make(chan struct{}), release: make(chan struct{})}
+					g = &gateT{side: map[string]int64{"read": 0, "write": 1}[mode], phase: int64(st.G), hit: make(chan struct{}, 1), release: make(chan struct{})}
 					gate.Store(g)
 				}
 				done := make(chan struct{})
@@ -251,6 +251,7 @@ func runScript(t *testing.T, s wscript, side, mode, errBy string, sum *summary, 
 						close(g.release)
 					case <-done:
 						gate.Store(nil) // the call returned without passing the point
+						close(g.release) // (whoever took the gate at this very moment is not held)
 						sum.Kinds["gate-not-reached"]++
 					}
 				}
